@@ -21,8 +21,8 @@ TRUSTED = [
     "theorems (Lemmas/PcValid.lean): cofactor-1 test, B12 G1 test and B12 G2 test accept exactly the non-zero elements killed by r over an "
     "abstract commutative group with endomorphism, under explicit hypotheses (characteristic equation of psi on the group, eigenvalue on the "
     "r-torsion, r = z^4 - z^2 + 1 resp. gcd(z^2 - t z + p, group order) | r); BN G2: reduction to the coded relation and completeness only; B12 GT test (fp12_test_cyc and a^p = a^z) over an abstract commutative "
-    "group with Frobenius. NOT proved: soundness of the BN G2 relation, the BN GT relation (Dai et al.); the hypotheses are not re-checked numerically "
-    "on the reported constants — the per-line specification column (definition: on the curve, killed by r) is what judges those",
+    "group with Frobenius. NOT proved: soundness of the BN G2 relation, the BN GT relation (Dai et al.); of the hypotheses only r = z^4-z^2+1, the gcd condition and the characteristic equations at the "
+    "generators are re-checked on the reported constants (pc_param line, B12) — the per-line specification column (definition: on the curve, killed by r) is what judges those",
     "theorems (Props/C12.lean): the membership predicate 'a^r = 1' already implies membership in the cyclotomic subgroup (unique subgroup of order "
     "r in a cyclic group), so the specification predicate equals the property's predicate; exponentiation by k depends on k mod r only",
 ]
